@@ -9,6 +9,7 @@ create task and all part tasks) are re-read from the source on every run (`plans
 -/
 import S3V.Lemmas.Xfer3
 import S3V.Model.Wiring
+import S3V.Props.Serial
 
 namespace S3V.C05
 open S3V.Xfer
@@ -110,5 +111,14 @@ example :
       .taskStart 1, .taskStart 2, .taskStart 3, .decide 1 true, .decide 2 true,
       .reqBegin 1, .reqBegin 2, .reqEnd 1 false, .record 1, .taskEnd 1,
       .decide 3 false] = none := by decide
+
+/-- **Nothing of the transfer runs after its first failure on a serial manager**: the mains that run
+are the plan's mains up to and including the first one that raises — no part after a failed part, no
+CompleteMultipartUpload after a failed part (the failure cleanups, the abort among them, ran:
+`cleaned = !success`) -/
+theorem serial_nothing_after_failure (plan : List S3V.Serial.Task) (hwf : S3V.Serial.WF plan) :
+    (S3V.Serial.manager S3V.Serial.Tables.current plan).1.ran = S3V.Serial.ranOf (S3V.Serial.mainsOf plan) ∧
+    (S3V.Serial.manager S3V.Serial.Tables.current plan).1.cleaned = !(S3V.Serial.manager S3V.Serial.Tables.current plan).1.success :=
+  ⟨S3V.Serial.serial_ran plan hwf, (S3V.Serial.serial_outcome plan hwf).2.2.2.2.2⟩
 
 end S3V.C05
